@@ -137,6 +137,11 @@ def _drive(ctx, exe, cmd, sub=None, extra=(), timeout=3000, env=None):
     if env:
         e.update(env)
     rc, out = sh([exe, cmd, '-out', d, '-tier', ctx.tier, '-seed', str(ctx.seed)] + list(extra), timeout=timeout, env=e)
+    if rc == 3 and 'DRIVER-PANIC' in out and not os.path.exists(os.path.join(d, 'summary.json')):
+        # the driver died half way: what it recorded is still judged; if that shows nothing the run is inconclusive (finish())
+        ctx.driver_panics = getattr(ctx, 'driver_panics', []) + ['%s: %s' % (cmd, out[out.index('DRIVER-PANIC'):][:600])]
+        json.dump({}, open(os.path.join(d, 'summary.json'), 'w'))
+        raise Inconclusive('driver %s died:\n%s' % (cmd, out[-3000:]))
     if rc != 0:
         raise Inconclusive('driver %s failed (%d):\n%s' % (cmd, rc, out[-4000:]))
     return d
